@@ -121,7 +121,8 @@ Drain(s, e) ==
       expectRet == IF e.mode = "slices" THEN HMin(e.n, e.nsl_before) ELSE HMin(e.n, e.stable_before)
       have == HMin(k, Len(s.vis) - s.D)
       bad ==
-           When(e.panic # "", V("C09", "panic while draining: " \o e.panic))
+           When(e.panic # "", V("C09", "panic while draining: " \o e.panic)
+                                \cup V(IF s.kind = "dec" THEN "C07" ELSE "C01", "panic while the output was drained incrementally: " \o e.panic))
       \cup (IF e.panic # "" THEN {} ELSE
              When(e.ret # expectRet, V("C09", "drain call reports a different amount than it was able to remove"))
         \cup When(e.mode # "slices" /\ e.ret # k, V("C09", "byte drain removed a different number of bytes than reported"))
